@@ -170,12 +170,42 @@ def run(eng, R):
     helpers = {name for name, m in MB.all_methods().items() if hasattr(m, "node") and name != "_get_arrow_specs" and "ConfidenceLevel" in ast.unparse(m.node) and len(m.node.body) <= 8}
     results = {}  # (side, case, what) -> [ok, message of the first failure, where]
     n_events = 0
+    bound_results = {}
     for low0 in (NONE, NOTNONE):
         for high0 in (NONE, NOTNONE):
             for cl0 in (NONE, NOTNONE):
+              for sub0 in (True, False):
                 for arrows0 in (True, False):
-                    ev = Evaluator(MB, event_calls={"append"}, inline=helpers)
-                    ev.run(ga.node, {"low": low0, "high": high0, "cl": cl0, "arrows": arrows0})
+                    ev = Evaluator(MB, event_calls={"append"}, inline=helpers | {"_get_cost_value"})
+                    ev.run(ga.node, {"low": low0, "high": high0, "cl": cl0, "arrows": arrows0, "subtract_min": sub0})
+                    # arrows at user-supplied bounds: the tail is that of the cost *rise* at the bound, whatever offset the plot uses
+                    for call, facts, env, trail in ev.events:
+                        bl = [t for t, pol in trail if isinstance(t, ast.For) and isinstance(t.iter, ast.Name) and t.iter.id in ("low", "high")]
+                        if not bl or not (isinstance(call.func.value, ast.Name) and "arrow" in call.func.value.id) or not call.args or not isinstance(call.args[0], ast.Dict):
+                            continue
+                        d = call.args[0]
+                        items = {common.const_str(k): v for k, v in zip(d.keys, d.values)}
+                        side = common.const_str(items.get("side"))
+                        clx = ev.close(items["cl"], facts, env)
+                        cls_ = [c for c in ast.walk(clx) if isinstance(c, ast.Call) and isinstance(c.func, ast.Name) and c.func.id == "ConfidenceLevel"]
+                        if len(cls_) != 1:
+                            raise AnalysisError("_get_arrow_specs: tail probability of a bound arrow is not derived from one ConfidenceLevel")
+                        dn = next((k.value for k in cls_[0].keywords if k.arg == "delta_nll"), None)
+                        got_d = Normalizer().norm(dn).simplify().canon() if dn is not None else "?"
+                        want_d = norm_spec("self.function_value - min_cost").canon()
+                        tail = Normalizer().norm(clx).simplify().canon()
+                        want_tail = norm_spec("(1 - X) / 2").canon().replace("X", "(" + Normalizer().norm(cls_[0]).canon() + ").cl")
+                        r = bound_results.setdefault((side, "delta"), [True, "", call.lineno])
+                        if got_d != want_d and r[0]:
+                            r[0] = False
+                            r[1] = "arrow at a given %s bound [subtract_min=%s]: the tail probability is computed from delta_nll = %s, expected the cost rise at the bound, %s" % (
+                                "lower" if side == "left" else "upper", sub0, got_d, want_d)
+                        yv = Normalizer().norm(ev.close(items["y"], facts, env)).simplify().canon()
+                        want_y = norm_spec("self.function_value - min_cost").canon() if sub0 else "self.function_value"
+                        r = bound_results.setdefault((side, "y"), [True, "", call.lineno])
+                        if yv != want_y and r[0]:
+                            r[0] = False
+                            r[1] = "arrow at a given bound [subtract_min=%s]: plotted at y = %s, expected %s" % (sub0, yv, want_y)
                     state_txt = "low %s, high %s, cl %s, arrows=%s" % ("given" if low0 == NOTNONE else "None", "given" if high0 == NOTNONE else "None", "given" if cl0 == NOTNONE else "None", arrows0)
                     for call, facts, env, trail in ev.events:
                         loops = [t for t, pol in trail if isinstance(t, ast.For) and isinstance(t.iter, ast.Name) and t.iter.id == "cl"]
@@ -217,6 +247,10 @@ def run(eng, R):
     for (side, case, what), (ok, msg, line) in sorted(results.items()):
         R.ob("S-side", "_get_arrow_specs:%s:%s%s" % (side, case, "" if what == "conversion" else ":target"), ok, (ga.file, line),
              msg or "%s arrow, %s: tail probability and converted level agree" % (side, case))
+    for (side, what), (ok, msg, line) in sorted(bound_results.items()):
+        R.ob("S-side", "_get_arrow_specs:bound:%s:%s" % (side, what), ok, (ga.file, line), msg or "%s bound arrow: %s consistent" % (side, what))
+    if len(bound_results) < 4:
+        raise AnalysisError("_get_arrow_specs: arrows at user-supplied bounds not found (%s)" % sorted(bound_results))
     if len(results) < 8:
         raise AnalysisError("_get_arrow_specs: expected left/right x central/one-sided arrows from confidence levels, found %s" % sorted(results))
 
